@@ -20,6 +20,10 @@ for m in muts:
         if m['old'] not in s:
             print(f"{m['name']}: PATTERN NOT FOUND"); ok=False; continue
         open(p,'w').write(s.replace(m['old'],m['new'],1))
+        for ex in m.get('extra',[]):
+            p2=os.path.join(d,ex['file']); s2=open(p2).read()
+            if ex['old'] not in s2: print(f"{m['name']}: EXTRA PATTERN NOT FOUND"); ok=False
+            open(p2,'w').write(s2.replace(ex['old'],ex['new'],1))
         b=subprocess.run(['go','build','./...'],cwd=d,capture_output=True,text=True,env={**os.environ,'GOFLAGS':'-mod=mod','GOPROXY':'off'})
         for prop in m['props']:
             r=subprocess.run(['/verif/check',prop,'--budget',budget],capture_output=True,text=True,env={**os.environ,'VERIF_REPO_DIR':d})
